@@ -382,4 +382,246 @@ theorem valueAt_remove : ∀ (k : Key) (l l' : List CNode), Uniq l → removeExa
               simp [he, this]
 
 
+/-- nothing to remove: no path beneath `k` holds a value -/
+theorem valueAt_remove_none : ∀ (k : Key) (l : List CNode), k ≠ [] → removeExact l k = none →
+    ∀ k', k.isPrefixOf k' = true → valueAt l k' = none
+  | [], _, h, _, _, _ => absurd rfl h
+  | e :: es, l, _, h, k', hp => by
+    cases k' with
+    | nil => simp [List.isPrefixOf] at hp
+    | cons e' es' =>
+      simp only [List.isPrefixOf, Bool.and_eq_true, beq_iff_eq] at hp
+      obtain ⟨rfl, hp'⟩ := hp
+      simp only [removeExact] at h
+      rw [valueAt_cons_key]
+      cases hl : locate l e with
+      | none => simp
+      | some i =>
+        obtain ⟨c, hc, _⟩ := locate_name hl
+        simp only [hl, hc] at h ⊢
+        by_cases hes : es.isEmpty
+        · simp [hes] at h
+        · simp only [hes] at h
+          have hne : es ≠ [] := by intro h; simp [h] at hes
+          cases hk : removeExact c.kids es with
+          | some ks' => simp [hk] at h
+          | none =>
+            have hes' : ¬ es'.isEmpty := by
+              intro h
+              have : es' = [] := by simpa using h
+              subst this
+              cases es with
+              | nil => exact hne rfl
+              | cons a as => simp [List.isPrefixOf] at hp'
+            simp only [hes', Bool.false_eq_true, ↓reduceIte]
+            exact valueAt_remove_none es c.kids hne hk es' hp'
+
+/-! ### unique sibling names are kept -/
+
+theorem Uniq_chain : ∀ (k : Key) (v : Option Value), Uniq (chain k v)
+  | [], _ => by simp [chain, Uniq]
+  | [e], v => by simp [chain, Uniq]
+  | e :: e2 :: es, v => by
+    simp only [chain, Uniq]
+    exact ⟨by simp, Uniq_chain (e2 :: es) v, trivial⟩
+
+theorem Uniq_append : ∀ {l m : List CNode}, Uniq l → Uniq m → (∀ c ∈ l, ∀ d ∈ m, d.name ≠ c.name) → Uniq (l ++ m)
+  | [], m, _, hm, _ => by simpa using hm
+  | c :: ts, m, hl, hm, hd => by
+    rw [Uniq_cons] at hl
+    rw [List.cons_append, Uniq_cons]
+    refine ⟨?_, hl.2.1, Uniq_append hl.2.2 hm (fun c' hc' d hdm => hd c' (by simp [hc']) d hdm)⟩
+    intro d hdm
+    rw [List.mem_append] at hdm
+    rcases hdm with h | h
+    · exact hl.1 d h
+    · exact hd c (by simp) d h
+
+theorem Uniq_set : ∀ {l : List CNode} {i : Nat} {c c' : CNode}, Uniq l → l[i]? = some c → c'.name = c.name →
+    Uniq c'.kids → Uniq (l.set i c')
+  | [], _, _, _, _, h, _, _ => by simp at h
+  | d :: ts, 0, c, c', hu, h, hn, hk => by
+    rw [Uniq_cons] at hu
+    simp at h; subst h
+    simp only [List.set, Uniq_cons]
+    exact ⟨by rw [hn]; exact hu.1, hk, hu.2.2⟩
+  | d :: ts, j + 1, c, c', hu, h, hn, hk => by
+    rw [Uniq_cons] at hu
+    simp only [List.set, Uniq_cons]
+    refine ⟨?_, hu.2.1, Uniq_set hu.2.2 (by simpa using h) hn hk⟩
+    intro x hx
+    have hj : ts[j]? = some c := by simpa using h
+    rcases List.mem_or_eq_of_mem_set hx with h1 | h1
+    · exact hu.1 x h1
+    · subst h1
+      rw [hn]
+      exact hu.1 c (List.mem_of_getElem? hj)
+
+theorem Uniq_eraseIdx : ∀ {l : List CNode} (i : Nat), Uniq l → Uniq (l.eraseIdx i)
+  | [], _, _ => by simp [Uniq]
+  | d :: ts, 0, hu => by
+    rw [Uniq_cons] at hu
+    simpa using hu.2.2
+  | d :: ts, j + 1, hu => by
+    rw [Uniq_cons] at hu
+    simp only [List.eraseIdx_cons_succ, Uniq_cons]
+    exact ⟨fun x hx => hu.1 x (List.mem_of_mem_eraseIdx hx), hu.2.1, Uniq_eraseIdx j hu.2.2⟩
+
+theorem Uniq_assign : ∀ (k : Key) (l l' : List CNode) (v : Value), Uniq l → nodeAssign l k v = some l' → Uniq l'
+  | [], _, _, _, _, h => by simp [nodeAssign] at h
+  | e :: es, l, l', v, hu, h => by
+    simp only [nodeAssign] at h
+    cases hl : locate l e with
+    | none =>
+      simp only [hl] at h
+      cases h
+      refine Uniq_append hu (Uniq_chain _ _) ?_
+      intro c hc d hd
+      have hne := locate_none_iff.1 hl c hc
+      have : d.name = e := by
+        cases es with
+        | nil => simp [chain] at hd; subst hd; rfl
+        | cons a as => simp [chain] at hd; subst hd; rfl
+      rw [this]
+      exact fun h => hne h.symm
+    | some i =>
+      obtain ⟨c, hc, _⟩ := locate_name hl
+      simp only [hl, hc] at h
+      by_cases hes : es.isEmpty
+      · simp only [hes, ↓reduceIte] at h
+        cases h
+        exact Uniq_set (c' := .mk c.name (some v) c.kids) hu hc rfl (by simpa using Uniq_getElem hu hc)
+      · simp only [hes] at h
+        cases hk : nodeAssign c.kids es v with
+        | none => simp [hk] at h
+        | some ks' =>
+          simp only [hk] at h
+          cases h
+          exact Uniq_set (c' := .mk c.name c.value ks') hu hc rfl (by simpa using Uniq_assign es c.kids ks' v (Uniq_getElem hu hc) hk)
+
+theorem Uniq_remove : ∀ (k : Key) (l l' : List CNode), Uniq l → removeExact l k = some l' → Uniq l'
+  | [], _, _, _, h => by simp [removeExact] at h
+  | e :: es, l, l', hu, h => by
+    simp only [removeExact] at h
+    cases hl : locate l e with
+    | none => simp [hl] at h
+    | some i =>
+      obtain ⟨c, hc, _⟩ := locate_name hl
+      simp only [hl, hc] at h
+      by_cases hes : es.isEmpty
+      · simp only [hes, ↓reduceIte] at h
+        cases h
+        exact Uniq_eraseIdx i hu
+      · simp only [hes] at h
+        cases hk : removeExact c.kids es with
+        | none => simp [hk] at h
+        | some ks' =>
+          simp only [hk] at h
+          cases h
+          exact Uniq_set (c' := .mk c.name c.value ks') hu hc rfl (by simpa using Uniq_remove es c.kids ks' (Uniq_getElem hu hc) hk)
+
+/-! ### the map laws of S -/
+
+theorem find?_ext {α : Type} (p q : α → Bool) : ∀ (l : List α), (∀ x ∈ l, p x = q x) → l.find? p = l.find? q
+  | [], _ => rfl
+  | a :: as, h => by
+    simp only [List.find?_cons, h a (by simp)]
+    rw [find?_ext p q as (fun x hx => h x (by simp [hx]))]
+
+theorem get_set (m : PMap) (k k' : Key) (v : Value) :
+    PathMap.get (PathMap.set m k v) k' = if k' = k then some v else PathMap.get m k' := by
+  simp only [PathMap.get, PathMap.set, List.find?_cons]
+  by_cases h : k' = k
+  · subst h; simp
+  · have h' : (k == k') = false := by simp; exact fun e => h e.symm
+    simp only [h', h, ↓reduceIte]
+    rw [List.find?_filter]
+    congr 1
+    apply find?_ext
+    intro x _
+    by_cases hx : x.1 = k'
+    · have : x.1 ≠ k := by rw [hx]; exact h
+      simp [hx]; exact h
+    · simp [hx]
+
+theorem get_removePrefix (m : PMap) (k k' : Key) :
+    PathMap.get (removePrefix m k) k' = if k.isPrefixOf k' then none else PathMap.get m k' := by
+  simp only [PathMap.get, removePrefix]
+  rw [List.find?_filter]
+  by_cases hp : k.isPrefixOf k'
+  · simp only [hp, ↓reduceIte]
+    have : ∀ o : Option (Key × Value), o = none → o.map (fun x => x.2) = none := by intro o h; rw [h]; rfl
+    apply this
+    apply List.find?_eq_none.2
+    intro x _
+    by_cases hx : x.1 = k'
+    · simp [hx, hp]
+    · simp [hx]
+  · simp only [hp, Bool.false_eq_true, ↓reduceIte]
+    congr 1
+    apply find?_ext
+    intro x _
+    by_cases hx : x.1 = k'
+    · simp [hx, hp]
+    · simp [hx]
+
+
+/-! ### histories -/
+
+inductive Op where
+  | set (k : Key) (v : Value)
+  | del (k : Key)
+
+def Op.key : Op → Key
+  | .set k _ => k
+  | .del k => k
+
+/-- one step of the tree model (assign / remove of the global configuration object) -/
+def stepM (l : List CNode) : Op → List CNode
+  | .set k v => (nodeAssign l k v).getD l
+  | .del k => (removeExact l k).getD l
+
+/-- one step of the map -/
+def stepS (m : PMap) : Op → PMap
+  | .set k v => PathMap.set m k v
+  | .del k => removePrefix m k
+
+/-- a query of the tree for any non-empty path gives what the map holds -/
+def Agree (l : List CNode) (m : PMap) : Prop := ∀ k, k ≠ [] → valueAt l k = PathMap.get m k
+
+theorem agree_step {l : List CNode} {m : PMap} (hu : Uniq l) (ha : Agree l m) (op : Op) (hk : op.key ≠ []) :
+    Uniq (stepM l op) ∧ Agree (stepM l op) (stepS m op) := by
+  cases op with
+  | set k v =>
+    obtain ⟨l', hl'⟩ := nodeAssign_some k l v hk
+    simp only [stepM, stepS, hl', Option.getD_some]
+    refine ⟨Uniq_assign k l l' v hu hl', ?_⟩
+    intro k' hk'
+    rw [valueAt_assign k l l' v hl' k', get_set, ha k' hk']
+  | del k =>
+    simp only [stepM, stepS]
+    cases hr : removeExact l k with
+    | some l' =>
+      simp only [Option.getD_some]
+      refine ⟨Uniq_remove k l l' hu hr, ?_⟩
+      intro k' hk'
+      rw [valueAt_remove k l l' hu hr k', get_removePrefix, ha k' hk']
+    | none =>
+      simp only [Option.getD_none]
+      refine ⟨hu, ?_⟩
+      intro k' hk'
+      rw [get_removePrefix]
+      by_cases hp : k.isPrefixOf k'
+      · simp only [hp, ↓reduceIte]
+        exact valueAt_remove_none k l hk hr k' hp
+      · simp only [hp, Bool.false_eq_true, ↓reduceIte]
+        exact ha k' hk'
+
+theorem agree_foldl : ∀ (ops : List Op) (l : List CNode) (m : PMap), Uniq l → Agree l m → (∀ op ∈ ops, op.key ≠ []) →
+    Uniq (ops.foldl stepM l) ∧ Agree (ops.foldl stepM l) (ops.foldl stepS m)
+  | [], l, m, hu, ha, _ => ⟨hu, ha⟩
+  | op :: ops, l, m, hu, ha, hk => by
+    obtain ⟨hu', ha'⟩ := agree_step hu ha op (hk op (by simp))
+    exact agree_foldl ops _ _ hu' ha' (fun o ho => hk o (by simp [ho]))
+
 end Mpt.Config
